@@ -961,9 +961,14 @@ class SyncObj(object):
             # Install snapshot
             elif serialized is not None:
                 if self.__serializer.setTransmissionData(serialized):
-                    self.__loadDumpFile(clearJournal=True)
-                    self.__sendNextNodeIdx(node, success=True)
-                    lastMatchedIdx = self.__getCurrentLogIndex()
+                    staleSnapshotIdx = self.__loadDumpFile(clearJournal=True)
+                    if staleSnapshotIdx is None:
+                        self.__sendNextNodeIdx(node, success=True)
+                        lastMatchedIdx = self.__getCurrentLogIndex()
+                    else:
+                        # Everything in the snapshot was already applied here, nothing was loaded
+                        self.__sendNextNodeIdx(node, nextNodeIdx=staleSnapshotIdx + 1, success=True)
+                        lastMatchedIdx = staleSnapshotIdx
 
             # The commit index may only cover entries that are known to match the leader's log
             if lastMatchedIdx is not None and leaderCommitIndex > self.__raftCommitIndex:
@@ -1397,6 +1402,11 @@ class SyncObj(object):
     def __loadDumpFile(self, clearJournal):
         try:
             data = self.__serializer.deserialize()
+            if clearJournal and data[1][1] <= self.__raftLastApplied:
+                # A snapshot received from the leader that is not newer than what this node has
+                # already applied (the leader's view of this node was outdated): loading it would
+                # move the state machine backwards and re-apply entries.
+                return data[1][1]
             if data[0] is not None:
                 if self.__consumers:
                     selfData = data[0][0]
